@@ -41,6 +41,12 @@ the unit of work), plus
 seeded random histories (6-16 ops) on up to four objects with a second session (SQL-free
 ops only), SAVEPOINTs, cascades ``save-update, merge`` and ``all, delete-orphan``.
 
+Session configuration axis: every part runs with ``autoflush`` on and off and
+``expire_on_commit`` on and off, and SAVEPOINTs are also begun inside ``no_autoflush`` blocks;
+``begin_nested()`` flushes unconditionally, so after it nothing of the session may be pending
+(what was added before the SAVEPOINT belongs to the enclosing transaction and a SAVEPOINT
+rollback must not touch it).
+
 Listener presence: the library specialises on it (``session.dispatch.<event> or None``), so a
 share of all histories (exhaustive, deep, leave-and-return, random) is run a second time in a
 session with NO lifecycle listener, or only a subset: the executed operations of the fully
@@ -270,7 +276,12 @@ class World:
         self.ctx, self.rig = ctx, rig
         self.P, self.C = rig.cls["P"], rig.cls["C"]
         self.inspect = inspect
-        self.desc = {"config": config, "cascade": cascade, "expire_on_commit": expire_on_commit, "ops": []}
+        # session configuration axis: expire_on_commit alone, or (expire_on_commit, autoflush)
+        autoflush = True
+        if isinstance(expire_on_commit, tuple):
+            expire_on_commit, autoflush = expire_on_commit
+        self.desc = {"config": config, "cascade": cascade, "expire_on_commit": expire_on_commit,
+                     "autoflush": autoflush, "ops": []}
         self.tr = Tracker(ctx, self.desc)
         self.rec = LifeRecorder(on_event=self.tr.on_event)
         self.listen = listen        # None: all ten events; else the subset (possibly empty) that gets a listener
@@ -278,7 +289,7 @@ class World:
             self.tr.passive = True
             self.rec.only = set(listen)
         self.record = []            # per executed op: [name, obj, raised, rolled_back, snapshot, events]
-        self.s = rig.session(expire_on_commit=expire_on_commit)
+        self.s = rig.session(expire_on_commit=expire_on_commit, autoflush=autoflush)
         self.s2 = None
         self.tr.sessions.append(self.s)
         self.rec.attach(self.s)
@@ -379,9 +390,10 @@ def apply_op(w, op, expected_exc):
                 return
     w.desc["ops"].append(list(op))
     tr.op = {"nested_rollback": "rollback", "delete_flush": "delete", "s2_add": "add", "s2_expunge": "expunge",
-             "s2_close": "close"}.get(name, name)
+             "s2_close": "close", "begin_nested_noaf": "begin_nested"}.get(name, name)
     del tr.evlog[:]
     raised = rolled = None
+    began = False
     try:
         if name in ("add", "delete", "delete_flush", "s2_add") and o is not None:
             st_o = w.inspect(o)
@@ -468,6 +480,12 @@ def apply_op(w, op, expected_exc):
         elif name == "begin_nested":
             if len(w.nested) < 2:
                 w.nested.append(s.begin_nested())
+                began = True
+        elif name == "begin_nested_noaf":
+            if len(w.nested) < 2:
+                with s.no_autoflush:
+                    w.nested.append(s.begin_nested())
+                began = True
         elif name == "nested_rollback":
             if w.nested:
                 w.nested.pop().rollback()
@@ -510,7 +528,12 @@ def apply_op(w, op, expected_exc):
         # nothing attached
         forbidden = {"commit": ("pending", "deleted"), "rollback": ("pending", "deleted"), "flush": ("pending",),
                      "close": ("pending", "persistent", "deleted"),
-                     "expunge_all": ("pending", "persistent", "deleted")}.get(name)
+                     "expunge_all": ("pending", "persistent", "deleted"),
+                     # begin_nested() flushes unconditionally (whatever autoflush / no_autoflush
+                     # say): what was pending belongs to the enclosing transaction
+                     "begin_nested": ("pending",), "begin_nested_noaf": ("pending",)}.get(name)
+        if forbidden and name.startswith("begin_nested") and not began:
+            forbidden = None
         if forbidden:
             for i, x in tr.objs.items():
                 if i in tr.tainted:
@@ -520,7 +543,9 @@ def apply_op(w, op, expected_exc):
                     fl = tr.flags(x)
                     if len(fl) == 1 and fl[0] in forbidden and tr.shadow.get(i) == fl[0]:
                         w.ctx.count("post_op_state_checks_hit")
-                        tr.viol(f"instance-still-{fl[0]}-after-{name}:expire_on_commit-{s.expire_on_commit}",
+                        cfg = (f"autoflush-{s.autoflush}" if name.startswith("begin_nested")
+                               else f"expire_on_commit-{s.expire_on_commit}")
+                        tr.viol(f"instance-still-{fl[0]}-after-{tr.op}:{cfg}",
                                 f"{tr.nm(x)} is still {fl[0]} in the session after a successful {name}() "
                                 f"(no lifecycle event moved it on)", x, obj=tr.nm(x))
                         break
@@ -540,6 +565,7 @@ def raw_apply(w, name, on, expected_exc):
     o = w.o.get(on) if on else None
     del w.tr.evlog[:]
     raised = rolled = None
+    began = False
     try:
         if name == "add":
             s.add(o)
@@ -584,6 +610,12 @@ def raw_apply(w, name, on, expected_exc):
         elif name == "begin_nested":
             if len(w.nested) < 2:
                 w.nested.append(s.begin_nested())
+                began = True
+        elif name == "begin_nested_noaf":
+            if len(w.nested) < 2:
+                with s.no_autoflush:
+                    w.nested.append(s.begin_nested())
+                began = True
         elif name == "nested_rollback":
             if w.nested:
                 w.nested.pop().rollback()
@@ -695,10 +727,11 @@ EXH_ALPHABET = [
 RANDOM_OPS = [
     ("add", 10), ("delete", 6), ("delete_flush", 6), ("expunge", 6), ("merge", 4), ("make_transient", 4), ("mttd", 3),
     ("modify", 4), ("unlink", 2), ("refresh", 2), ("expire", 2), ("flush", 10), ("commit", 6), ("rollback", 8),
-    ("close", 2), ("expunge_all", 2), ("begin_nested", 5), ("nested_rollback", 5), ("nested_commit", 3), ("query", 4),
+    ("close", 2), ("expunge_all", 2), ("begin_nested", 4), ("begin_nested_noaf", 2), ("nested_rollback", 5), ("nested_commit", 3), ("query", 4),
     ("s2_add", 2), ("s2_expunge", 2), ("s2_close", 1),
 ]
-NO_OBJ = {"flush", "commit", "rollback", "close", "expunge_all", "begin_nested", "nested_rollback", "nested_commit",
+NO_OBJ = {"flush", "commit", "rollback", "close", "expunge_all", "begin_nested", "begin_nested_noaf", "nested_rollback",
+          "nested_commit",
           "query", "s2_close"}
 
 
@@ -763,6 +796,7 @@ def run(ctx):
                         break
                     cname = "plain" if idx % 3 else "orphan"
                     w = run_case(ctx, rigs[cname], config, cname, seq, expected_exc,
+                                 expire_on_commit=(True, bool((idx // ctx.nshards) % 2)),
                                  listen=() if (idx // ctx.nshards) % 6 == 0 else None)
                     ctx.count("exhaustive_sequences")
                     if sampled < 2 and w.tr.nevents >= 4:
@@ -787,7 +821,7 @@ def run(ctx):
             listen = None if lk < 0.34 else () if lk < 0.6 else tuple(
                 e for e in R.LIFECYCLE_EVENTS if rng.random() < 0.5)
             w = run_case(ctx, rigs[cname], config, cname, ops, expected_exc, extra_objs=extra, kind="rand",
-                         expire_on_commit=rng.random() < 0.6, listen=listen)
+                         expire_on_commit=(rng.random() < 0.6, rng.random() < 0.6), listen=listen)
             ctx.count("random_histories")
             if sampled < 4 and w.tr.nevents >= 6:
                 ctx.sample({"config": config, "cascade": cname, "ops": [list(o) for o in ops]})
@@ -804,7 +838,8 @@ def run(ctx):
                     break
                 if seq[0][0] != "add":
                     continue      # every other first op is a refusal on a transient object
-                run_case(ctx, rigs["plain"], "single", "plain", seq, expected_exc, expire_on_commit=bool(idx // 8 % 2),
+                run_case(ctx, rigs["plain"], "single", "plain", seq, expected_exc,
+                         expire_on_commit=(bool(idx // 8 % 2), bool(idx // 16 % 2)),
                          listen=() if (idx // ctx.nshards) % 3 == 0 else None)
                 ctx.count("exhaustive_sequences")
                 ctx.count("deep_sequences")
@@ -812,7 +847,8 @@ def run(ctx):
         # input class: an object reaches a state, LEAVES the session (expunge / make_transient
         # [+ make_transient_to_detached]) or not, comes BACK to the same session (add / merge)
         # or not, and the unit of work is then finished in every way.
-        F = ["flush", "commit", "rollback", "begin_nested", "nested_rollback", "close", "delete_flush", "query"]
+        F = ["flush", "commit", "rollback", "begin_nested", "begin_nested_noaf", "nested_rollback", "close", "delete_flush",
+             "query"]
         firsts = ["flush", "commit", "rollback"] if ctx.quick else F
         finishes = [(f,) for f in F] + [(a, b) for a in firsts for b in F]
         leaves = [(), ("expunge",), ("make_transient",), ("make_transient", "mttd"), ("expunge", "make_transient")]
@@ -838,7 +874,7 @@ def run(ctx):
                             seq = [(n, None if n in NO_OBJ else "o1") for n in pre + lv + bk + fin]
                             k3 = (idx // ctx.nshards) % 6
                             run_case(ctx, rigs["plain"], config, "plain", seq, expected_exc,
-                                     expire_on_commit=bool(idx // 16 % 2),
+                                     expire_on_commit=(bool(idx // 16 % 2), bool(idx // 32 % 2)),
                                      listen=() if k3 == 0 else R.LIFECYCLE_EVENTS[k3::3] if k3 == 1 else None)
                             ctx.count("exhaustive_sequences")
                             ctx.count("leave_and_return_sequences")
